@@ -221,16 +221,27 @@ def extract(ctx):
         defs = {}
         for st in c.body:
             if isinstance(st, ast.FunctionDef) and st.name in ('__and__', '__or__', '__invert__', '__rand__', '__ror__'):
-                if len(st.body) >= 1 and isinstance(st.body[-1], ast.Return):
-                    src = ast.unparse(st.body[-1].value)
-                    shape = {'And(self, other)': 'And(self,other)', 'Or(self, other)': 'Or(self,other)',
-                             'Not(self)': 'Not(self)',
-                             'And(*self.children + (other,))': 'And(*children,other)',
-                             'Or(*self.children + (other,))': 'Or(*children,other)'}.get(src)
-                    if shape is None:
-                        P.add('%s.%s: unrecognised operator result %s' % (cname, st.name, src))
-                        shape = 'other'
-                    defs[st.name] = shape
+                shapes = {'And(self, other)': 'And(self,other)', 'Or(self, other)': 'Or(self,other)',
+                          'Not(self)': 'Not(self)',
+                          'And(*self.children + (other,))': 'And(*children,other)',
+                          'Or(*self.children + (other,))': 'Or(*children,other)'}
+                body = [b for b in st.body if not (isinstance(b, ast.Expr) and isinstance(b.value, ast.Constant))]
+                shape = None
+                if len(body) == 1 and isinstance(body[0], ast.Return):
+                    shape = shapes.get(ast.unparse(body[0].value))
+                elif (len(body) == 2 and isinstance(body[0], ast.If) and not body[0].orelse
+                      and ast.unparse(body[0].test) == 'self.default is not _MISSING'
+                      and len(body[0].body) == 1 and isinstance(body[0].body[0], ast.Return)
+                      and isinstance(body[1], ast.Return)):
+                    a = shapes.get(ast.unparse(body[0].body[0].value))
+                    b = shapes.get(ast.unparse(body[1].value))
+                    if a and b:
+                        # `if self.default is not _MISSING: return A` / `return B`
+                        shape = 'default?' + a + ':' + b
+                if shape is None:
+                    P.add('%s.%s: unrecognised operator body' % (cname, st.name))
+                    shape = 'other'
+                defs[st.name] = shape
             elif (isinstance(st, ast.Assign) and len(st.targets) == 1 and isinstance(st.targets[0], ast.Name)
                   and isinstance(st.value, ast.Name) and st.targets[0].id in ('__rand__', '__ror__')):
                 defs[st.targets[0].id] = defs.get(st.value.id, 'other')
